@@ -599,7 +599,7 @@ class ExprGen(Gen):
         elif k == 3: toks[i] = ''.join(c.swapcase() if c.isascii() else c for c in toks[i])
         elif k == 4: toks.insert(i, r.choice(["\x00", "\x80", "$", "!", "\xff", "\t", "'", '"', "{", "&"]))
         elif k == 5: toks = toks[:i]
-        elif k == 6: toks.insert(i, r.choice([" AND ", " OR ", " NOT ", "(", ")", ",", " BETWEEN ", " IN ", " SET ", " = ", ".", "[", "]"]))
+        elif k == 6: toks.insert(i, r.choice([" AND ", " OR ", " NOT ", "(", ")", ",", " BETWEEN ", " IN ", " SET ", " = ", ".", "[", "]", " IN () ", " IN ( ) "]))
         elif k == 7: toks.append(" " + r.choice(toks))
         else: toks[i] = r.choice(["and", "or", "not", "between", "in", "set", "Remove", "add"])
         return "".join(toks)
